@@ -16,9 +16,12 @@ THEOREMS = [
     'Lcdb.C04.short_rejected',
     'Lcdb.C04.iterate_count',
     'Lcdb.C04.iterate_sound_false',
+    'Lcdb.C04Conc.batch_atomic_for_readers',
+    'Lcdb.C04Conc.group_preserves_batches',
+    'Lcdb.C04Conc.committed_changes_only_in_commit',
 ]
-IMPORTS = ['LcdbModel.Props.C04']
-TARGETS = ['LcdbModel.Props.C04']
+IMPORTS = ['LcdbModel.Props.C04', 'LcdbModel.Props.C04Conc']
+TARGETS = ['LcdbModel.Props.C04', 'LcdbModel.Props.C04Conc']
 
 
 def run(tier):
